@@ -44,6 +44,7 @@ def _one(name, leandir):
     shutil.rmtree(d, ignore_errors=True)
     os.makedirs(d)
     for sub in ('include', 'src', 'tools'): shutil.copytree(os.path.join('/repo', sub), os.path.join(d, sub))
+    shutil.copytree(os.path.join('/repo', 'test', 'data'), os.path.join(d, 'test', 'data'))   # conformance data the checks read
     if name in seeded:
         r = subprocess.run(['patch', '-p1', '-s', '-d', d, '-i', os.path.join(sd, name[2:], 'patch.diff')], stdout=subprocess.PIPE, stderr=subprocess.STDOUT, text=True)
         if r.returncode != 0: print(name, 'PATCH DOES NOT APPLY', r.stdout[-300:], flush=True); shutil.rmtree(d); return
